@@ -1,4 +1,9 @@
 From FV Require Import Common.ExtractTypes SlabConc.Skeleton SlabConc.Shapes Gen.SlabSkeleton.
+From FV Require Import Slab.SlabModel SlabConc.ConcSlabModel SlabConc.ConcSlabCheck.
 From Coq Require Extraction.
 From Coq Require Import ExtrOcamlBasic.
-Extraction "../build/extract/slabconc_model.ml" types_witness api actual check_skeleton check_fun shapes.
+Extraction "../build/extract/slabconc_model.ml" types_witness api actual check_skeleton check_fun shapes
+  cshapes cmodel_paths cmodel_paths_realloc.
+(* the concrete concurrent model (no Coq strings in it: built with vlib.ocaml_build + comp/slabconc/cdriver.ml) *)
+Extraction "../build/extract/slabconc_cmodel.ml" types_witness cinit cstep step_okb lock_of unlock_of
+  idle_done cfg_ok.
